@@ -66,8 +66,6 @@ fn ol_factor_pool(prefs: &Preferences) -> (tpool: Option<rayon::ThreadPool>)
     }
 }
 
-/// `pseudoprime` as seen from `check_factors`: no contract needed (any answer keeps the product claim)
-pub assume_specification [pseudoprime] (p: Uint) -> bool;
 
 // ---------------------------------------------------------------- factor_impl: vocabulary
 
@@ -96,13 +94,23 @@ pub open spec fn fi_pre(n: Uint, alg: Algo) -> bool {
     &&& uv(n) % 2 == 1
     &&& (small_algo(alg) ==> uv(n) < 0x1_0000_0000_0000_0000)
     &&& (alg is Rho ==> uv(n) <= 0xffff_ffff_ffff_ffc0)
+    &&& uv(n) < vstd::arithmetic::power2::pow2(512)
 }
 
 pub proof fn lemma_fi_pre_facts(n: Uint, alg: Algo)
     ensures fi_pre(n, alg) == (uv(n) >= 1 && uv(n) % 2 == 1 && (small_algo(alg) ==> uv(n) < 0x1_0000_0000_0000_0000)
-        && (alg is Rho ==> uv(n) <= 0xffff_ffff_ffff_ffc0))
+        && (alg is Rho ==> uv(n) <= 0xffff_ffff_ffff_ffc0) && uv(n) < vstd::arithmetic::power2::pow2(512))
 {
     reveal(fi_pre);
+}
+
+/// what pseudoprime / ZmodN::new need
+pub proof fn lemma_fi_pre_bits(n: Uint, alg: Algo)
+    requires fi_pre(n, alg)
+    ensures bitlen(uv(n)) <= 512
+{
+    reveal(fi_pre);
+    lemma_bitlen_le(uv(n), 512);
 }
 
 /// f1 extends f0 by elements >= 2 whose product is exactly n
@@ -535,6 +543,34 @@ pub proof fn lemma_fi_div_u64(n: Uint, d: u64)
         axiom_buint_div(n, x);
     }
     axiom_buint_div(n, n);
+}
+
+/// more than 64 bits: at least 2^64
+pub proof fn lemma_bits_gt64(n: Uint)
+    requires bitlen(uv(n)) > 64
+    ensures uv(n) >= 0x1_0000_0000_0000_0000
+{
+    vstd::arithmetic::power2::lemma2_to64();
+    if uv(n) < 0x1_0000_0000_0000_0000 {
+        lemma_bitlen_le(uv(n), 64);
+    }
+}
+
+/// the low word of an odd number is odd
+pub proof fn lemma_low_word_odd(x: nat)
+    requires x % 2 == 1
+    ensures (x % W()) % 2 == 1, x % W() >= 1
+{
+    lemma_mod_of_mod(x as int, W() as int, 2);
+}
+
+/// `X.try_into() == Ok(c)` for a bnum integer X and a u64 constant: equality of values (bnum's TryFrom is outside
+/// Verus; trusted contract)
+#[verifier::external_body]
+fn ol_uint_eq_u64(x: Uint, c: u64) -> (r: bool)
+    ensures r == (uv(x) == c as nat)
+{
+    x.try_into() == Ok(c)
 }
 
 pub proof fn lemma_bits_le64(n: Uint)
